@@ -38,6 +38,14 @@ LOAD_ONE = [
     "water.gro", "crambin.crd", "water_z.com", "water_hf_ccpvtz_freq_qchem.out", "caffeine.mol2", "formamide.sdf", "2luv.pdb",
     "h2_ub3lyp_ccpvtz.wfx", "nh3_molden_pure.molden", "cubegen_ch4_6points.cube", "water.com", "water_sto3g_hf_g03.log",
 ]
+# files whose format cannot be derived from the name: loaded with an explicit format
+LOAD_ONE_FMT = [
+    ("mgo.xyz", "extxyz"), ("al_fcc.xyz", "extxyz"), ("s66_4114_02WaterMeOH.xyz", "extxyz"),
+    ("water_extended_trajectory.xyz", "extxyz"), ("water.xyz", "extxyz"),
+    ("LiCl_molecule.json", "json_qcschema"), ("LiCl_STO4G_Gaussian_input.json", "json_qcschema"),
+    ("LiCl_STO4G_Gaussian_output.json", "json_qcschema"), ("water_cluster_ghost.json", "json_qcschema"),
+]
+LOAD_MANY_FMT = [("water_extended_trajectory.xyz", "extxyz"), ("al_fcc.xyz", "extxyz")]
 LOAD_MANY = ["water_trajectory.xyz", "water_trajectory.pdb", "peroxide_opt.fchk", "peroxide_irc.fchk",
              "water_extended_trajectory.xyz", "water2.gro"]
 
@@ -56,6 +64,12 @@ def pool():
     for name in LOAD_MANY:
         if name in have:
             calls.append({"op": "load_many", "file": name})
+    for name, fmt in LOAD_ONE_FMT:
+        if name in have:
+            calls.append({"op": "load_one", "file": name, "fmt": fmt})
+    for name, fmt in LOAD_MANY_FMT:
+        if name in have:
+            calls.append({"op": "load_many", "file": name, "fmt": fmt})
     from ivp.gen import objects as OBJ
 
     for fmt in OBJ.ALL_FORMATS:
@@ -129,10 +143,13 @@ def run_call(call, workdir):
             op = call["op"]
             if op == "load_one":
                 fmtarg = {"fmt": "json_qcschema"} if call["file"].endswith(".json") else {}
+                if "fmt" in call:
+                    fmtarg = {"fmt": call["fmt"]}
                 res = iodata.load_one(os.path.join(root, call["file"]), **fmtarg)
                 return "ok:" + digest_obj(res)
             if op == "load_many":
-                frames = list(iodata.load_many(os.path.join(root, call["file"])))
+                fmtarg = {"fmt": call["fmt"]} if "fmt" in call else {}
+                frames = list(iodata.load_many(os.path.join(root, call["file"]), **fmtarg))
                 return f"ok:{len(frames)}:" + digest_obj(frames)
             if op == "overlap":
                 from iodata.overlap import compute_overlap
